@@ -1,7 +1,6 @@
 package main
 
 import (
-	"strconv"
 	"fmt"
 	"go/ast"
 	"go/constant"
@@ -9,6 +8,7 @@ import (
 	"go/types"
 	"math/bits"
 	"sort"
+	"strconv"
 	"strings"
 )
 
